@@ -830,9 +830,9 @@ bool HttpMessage::putFile(const String& path, int begin, int end)
 	else
 	{
 		Long size = file.size();
-		if (end == 0)
+		if (end == 0 || end >= size) // a last position at or past the end of the file means "to the end" (RFC 7233 2.1)
 			end = int(size - 1);
-		if (end < begin || begin < 0 || end >= size) // begin == end is the one-byte range; the last byte is size - 1
+		if (end < begin || begin < 0) // begin == end is the one-byte range; begin >= size (also an empty file) is unsatisfiable
 		{
 			setHeader("Content-Length", "0");
 			setHeader("Content-Range", String::f("bytes */%lli", size));
